@@ -20,6 +20,7 @@ enum ArrClass {
     ARR_ZERORUNS,       // long runs of zeros (ones for codecs that need >= 1) between small values
     ARR_WIDTH_EDGE,     // base + {0, 1, 2^(8w)-2, 2^(8w)-1, 2^(8w)}: ranges that exactly fill w bytes
     ARR_POOL,           // drawn from a pool whose size sits near a decision threshold
+    ARR_LONGRUNS,       // one to six runs of equal values filling the whole array (bulk fill / copy paths)
     ARR_NCLASSES
 };
 
@@ -85,6 +86,13 @@ inline std::vector<uint64_t> gen_array(Rng &r, size_t n, int cls) {
         // enforce strictness even at the clamp
         for (size_t i = 1; i < n; i++)
             if (v[i] <= v[i - 1]) v[i] = v[i - 1] + 1;
+        if (!v.empty() && v.back() < 65535 && r.chance(1, 5)) { // end exactly at the top of the universe
+            uint64_t up = 65535 - v.back();
+            for (auto &x : v) x += up;
+        } else if (!v.empty() && r.chance(1, 6)) { // start exactly at 0
+            uint64_t down = v.front();
+            for (auto &x : v) x -= down;
+        }
         if (!v.empty() && v.back() > 65535) { // shift down
             uint64_t over = v.back() - 65535;
             for (auto &x : v) x = x >= over ? x - over : 0;
@@ -157,12 +165,21 @@ inline std::vector<uint64_t> gen_array(Rng &r, size_t n, int cls) {
         for (auto &x : v) x = p[r.below(pool)];
         break;
     }
+    case ARR_LONGRUNS: {
+        size_t k = r.range(1, 6), i = 0;
+        for (size_t j = 0; j < k && i < n; j++) {
+            size_t run = j + 1 == k ? n - i : r.range(1, std::max<size_t>(1, (n - i)));
+            uint64_t val = r.chance(1, 3) ? 0 : (r.chance(1, 2) ? r.below(1000) : magnitude(r));
+            for (size_t q = 0; q < run && i < n; q++, i++) v[i] = val;
+        }
+        break;
+    }
     case ARR_ZERORUNS: {
         // zero-width blocks, all-equal blocks, byte-aligned runs of the minimal value
         size_t i = 0;
         bool zeros = r.chance(1, 2);
         while (i < n) {
-            size_t run = r.chance(1, 3) ? r.range(1, 6) : (r.chance(1, 2) ? r.range(7, 40) : r.range(100, 200));
+            size_t run = r.chance(1, 3) ? r.range(1, 6) : (r.chance(1, 2) ? r.range(7, 40) : (r.chance(1, 6) ? r.range(1000, 3000) : r.range(100, 200)));
             for (size_t k = 0; k < run && i < n; k++, i++) v[i] = zeros ? 0 : r.range(1, r.chance(1, 2) ? 9 : 70000);
             zeros = !zeros;
         }
